@@ -28,13 +28,17 @@ MkDef(n) == [MkItem("def", n) EXCEPT !.b = <<[src |-> "v" \o n, toks |-> <<LitTo
 \* three item universes: "wide" (all plain items, names A B __LINE__), "deep" (few items so that
 \* longer programs with nested chains are reached), "hostile" (items that fail when live: a usage
 \* of an undefined macro and an include of a missing file - they must be inert in dead branches)
-Names == IF Wide = "wide" THEN {"A", "B", "__LINE__"} ELSE IF Wide = "deep" THEN {"A", "B"} ELSE {"A", "__FILE__"}
+\* "skel": conditional skeletons only (one plain token kind, one name) so that long, deeply nested chains
+\* with empty branches are enumerated exhaustively
+Names == IF Wide = "wide" THEN {"A", "B", "__LINE__"} ELSE IF Wide = "deep" THEN {"A", "B"} ELSE IF Wide = "skel" THEN {"A"} ELSE {"A", "__FILE__"}
 Plain ==
   IF Wide = "wide"
   THEN {MkItem("tok", "t"), MkDef("A"), MkDef("B"), MkItem("undef", "A"), MkItem("undef", "B"),
         MkItem("undefall", ""), MkItem("use", "A"), MkItem("use", "B")}
   ELSE IF Wide = "deep"
   THEN {MkItem("tok", "t"), MkDef("A"), MkItem("undef", "A"), MkItem("use", "A")}
+  ELSE IF Wide = "skel"
+  THEN {MkItem("tok", "t")}
   ELSE {MkItem("tok", "t"), MkDef("A"), MkItem("use", "Z"), MkItem("inc", "missing.svh")}
 Ifs == {MkItem(kk, nn) : kk \in {"ifdef", "ifndef"}, nn \in Names}
 Elsifs == {MkItem("elsif", nn) : nn \in Names}
@@ -159,4 +163,5 @@ ExportInv == (Export /\ phase = "run" /\ st.status \notin {"run", "none"} /\ tab
 TablesQuick == {<<0, 0>>, <<1, 2>>, <<2, 0>>}
 TablesAll == {<<a, b>> : a \in 0..2, b \in 0..2}
 TablesOne == {<<0, 0>>}
+TablesA == {<<0, 0>>, <<2, 0>>}
 =============================================================================
